@@ -16,14 +16,17 @@ import (
 // waiting values that arm timers of 0 s .. 30 s), handshake timers firing, and application
 // goroutines (approve, cancel, state queries, the answer to "allow waiting" changing, SPINE sends,
 // closes). The oracle is the race detector; the harness only keeps the protocol moving.
-func runStorm(t *testing.T, r *vc.Rand, id string, col *vc.Collector) {
-	col.Eval("C20", 1)
+func runStorm(t *testing.T, r *vc.Rand, id string, col *vc.Collector, prop string, wd *vc.Watchdog) {
+	col.Eval(prop, 1)
 	server := r.Chance(3, 4)
 	paired := r.Chance(1, 3)
 	alpha := []simkit.Input{
 		simkit.HelloReady(), simkit.HelloPending(), simkit.Hello(`"ready"`, "30000", ""), simkit.Hello(`"ready"`, "30001", ""), simkit.Hello(`"ready"`, "31000", ""),
 		simkit.Hello(`"pending"`, "30000", ""), simkit.Hello(`"pending"`, "30005", ""), simkit.Hello(`"pending"`, "", "true"), simkit.Hello(`"ready"`, "60000", ""),
 		simkit.ProtAnnounce(), simkit.ProtSelect(), simkit.PinNone(), simkit.AccessRequest(0), simkit.AccessMethods(`"R"`, ""),
+		// messages that end the hello phase while a short timer may be firing
+		simkit.Hello(`"aborted"`, "", ""), simkit.Hello(`"pending"`, "30100", ""), simkit.Hello(`"pending"`, "30000", ""), simkit.Hello(`"aborted"`, "", ""),
+		simkit.Close(`"announce"`, ""),
 	}
 	seq := make([]simkit.Input, 0, 24)
 	n := r.Range(4, 24)
@@ -43,7 +46,7 @@ func runStorm(t *testing.T, r *vc.Rand, id string, col *vc.Collector) {
 	for i := range agap {
 		agap[i] = vc.Pick(r, gaps)
 	}
-	col.Class("C20", fmt.Sprintf("ship-storm:server=%v:paired=%v:msgs=%d:api=%d", server, paired, len(seq)/6*6, len(apiOps)/4*4))
+	col.Class(prop, fmt.Sprintf("ship-storm:server=%v:paired=%v:msgs=%d:api=%d", server, paired, len(seq)/6*6, len(apiOps)/4*4))
 	_ = simkit.Bubble(t, func(t *testing.T) {
 		l := simkit.NewLog()
 		ep := simkit.NewEndpoint(l, simkit.EndpointCfg{Who: "E", Server: server, Paired: paired, AllowWait: true, LocalID: "L"})
@@ -52,6 +55,7 @@ func runStorm(t *testing.T, r *vc.Rand, id string, col *vc.Collector) {
 		wg.Add(2)
 		go func() { // read pump
 			defer wg.Done()
+			wd.Op("deliver")
 			ep.Conn.HandleIncomingWebsocketMessage(simkit.MsgInit().Msg)
 			for i, in := range seq {
 				if ep.W.Closed() {
